@@ -10,7 +10,8 @@ PID = "C14"
 LEVEL = "model_checking"
 THEMES = ["tdue", "tnot", "tduring", "tstag"]
 NEEDED = ["Republish", "Renew", "ExpectReissued", "ExpectRenewed",
-          "ExpectSame", "Settled", "DueTouch", "ExpectByMargin"]
+          "ExpectSame", "Settled", "DueTouch", "ExpectByMargin",
+          "ExpectStoreByMargin"]
 
 RULE = (
     "behaviours = TLC simulation of MC_Krill_gen with maintenance runs "
@@ -32,6 +33,38 @@ RULE = (
     "contains a maintenance run and reaches a settled state")
 
 
+def _a(a, **kw):
+    d = {"a": a}
+    d.update(kw)
+    return d
+
+
+M = kc.MARGIN_HOURS * 3600
+# maintenance in the middle of a roll, with key sets of different age: the
+# old key's set (and the staging key's set) is re-issued with the others
+DIRECTED = [
+    {"actions": [
+        _a("AddCa", c="B", p="A", res=["p1", "p2"]), _a("Settle"),
+        _a("AddCa", c="D", p="A", res=["a1"]), _a("Settle"),
+        _a("Restart", timing=kc.SHORT_TIMING),
+        _a("RoaAdd", c="B", r=["p1", "a1"]), _a("Settle"),
+        _a("RollInit", c="B"), _a("Settle"),
+        # staging key present
+        _a("Mark"), _a("RestartMargin"),
+        _a("RepublishByStoreMargin", margin=M),
+        _a("ExpectStoreByMargin", margin=M), _a("RestartNormal"),
+        _a("Settle"), _a("RollActivate", c="B"),
+        # old key present
+        _a("Mark"), _a("RestartMargin"),
+        _a("RepublishByStoreMargin", margin=M),
+        _a("ExpectStoreByMargin", margin=M), _a("RestartNormal"),
+        _a("Settle"),
+        _a("Mark"), _a("RestartMargin"), _a("RepublishByMargin", margin=M),
+        _a("Pump"), _a("RestartNormal"), _a("ExpectByMargin", margin=M),
+        _a("Settle")]},
+]
+
+
 def run(tier, seed):
     return kc.run_property(
         PID, LEVEL, tier, seed, THEMES, quick_num=6, thorough_num=200,
@@ -45,7 +78,8 @@ def run(tier, seed):
         ], rule=RULE, needed_events=NEEDED,
         mc_cfgs=(["MC_Krill_q_maint.cfg", "MC_Krill_q_roll.cfg"] if tier == "quick"
                  else ["MC_Krill_q_maint.cfg", "MC_Krill_q_roll.cfg", "MC_Krill_roll.cfg",
-                       "MC_Krill_q_aspa.cfg"]))
+                       "MC_Krill_q_aspa.cfg"]),
+        directed=DIRECTED)
 
 
 def replay(path, seed):
